@@ -22,6 +22,11 @@ Workloads
           1-byte, odd, 300-handle sets / protected, missing, failing attributes inside sets and
           ranges / bad UUID lengths / values of 0..600 bytes), single or pipelined, across an
           Exchange MTU at a random position
+  runs    every database also holds runs of 2+ CONSECUTIVE attributes whose UUIDs have the same width
+          (16 / 32 / 128 bit, and 32 next to 128) as descriptor types after a characteristic value, as
+          consecutive characteristic declarations and as consecutive (partly same-UUID) services; sweep and
+          seq cases aim Find Information, Read By Type (0x2803), Read By Group Type and Find By Type Value
+          at the start of such a run (label suffix /uuidNN-run, also the last segment of the MTU key)
   notify  subscriptions written by hand, then notifications and concurrent indications from the
           server API with values around ATT_MTU-3 while confirmations are withheld, with
           requests interleaved
@@ -41,7 +46,9 @@ LEVEL = 'exploration'
 RULE = ('seeded cases over (attribute database, link security, bearer set, ACL geometry, delay schedule, MTU '
         'plan, PDU sequence). sweep cases enumerate all 256 opcodes x body shapes; seq cases draw 1-20 requests '
         'from a grammar of valid and invalid parameter forms; notify cases drive notifications/indications around '
-        'ATT_MTU-3. A case is non-trivial when at least one judged client PDU falls outside what a well-behaved '
+        'ATT_MTU-3. Every database carries runs of 2+ consecutive attributes of one UUID width (16/32/128 bit; '
+        'descriptor types, characteristic declarations, services) and the listing requests are aimed at them. '
+        'A case is non-trivial when at least one judged client PDU falls outside what a well-behaved '
         'client sends to world-readable attributes (label other than allowed/all-allowed/valid) or a '
         'server-initiated PDU was observed; distinct = kind + bearer set + MTU plan + ordered (opcode, label) list')
 ASSUMPTIONS = [
@@ -66,13 +73,19 @@ MIN_EVENTS = {
               'unknown_opcodes_judged': 800, 'mtu_checks': 4000, 'indications_seen': 400, 'notifications_seen': 2000,
               'opcodes_swept': 256, 'eatt_requests': 1800, 'server_pdus_exactly_mtu': 1400, 'sequences': 600,
               'eatt_exchange_mtu_probes': 20, 'reconnections_after_raised_mtu': 40, 'notify_calls_after_reconnect': 600,
-              'eatt_bearer_closed_during_outstanding_indication': 15, 'exchange_mtu_below_23_sent': 10},
+              'eatt_bearer_closed_during_outstanding_indication': 15, 'exchange_mtu_below_23_sent': 10,
+              'uuid_run_requests': 600, 'uuid_run_find_information': 150, 'uuid32_run_find_information': 80,
+              'uuid_run_read_by_type_declarations': 150, 'uuid_run_read_by_group_type': 100,
+              'uuid_run_find_by_type_value': 100, 'uuid_run_wide_responses_with_2plus_entries': 150},
     'thorough': {'requests_judged': 72000, 'requests_answered_once': 60000, 'non_requests_judged': 68000,
                  'unknown_opcodes_judged': 32000, 'mtu_checks': 160000, 'indications_seen': 16000,
                  'notifications_seen': 80000, 'opcodes_swept': 10240, 'eatt_requests': 72000,
                  'server_pdus_exactly_mtu': 56000, 'sequences': 24000, 'eatt_exchange_mtu_probes': 800,
                  'reconnections_after_raised_mtu': 400, 'notify_calls_after_reconnect': 6000,
-                 'eatt_bearer_closed_during_outstanding_indication': 150, 'exchange_mtu_below_23_sent': 100},
+                 'eatt_bearer_closed_during_outstanding_indication': 150, 'exchange_mtu_below_23_sent': 100,
+                 'uuid_run_requests': 6000, 'uuid_run_find_information': 1500, 'uuid32_run_find_information': 800,
+                 'uuid_run_read_by_type_declarations': 1500, 'uuid_run_read_by_group_type': 1000,
+                 'uuid_run_find_by_type_value': 1000, 'uuid_run_wide_responses_with_2plus_entries': 1500},
 }
 CASE_TIMEOUT = 300
 
@@ -1010,7 +1023,8 @@ LEVEL_TEXT = ('Request/response pairing automaton (exactly one matching reply pe
               'at every quiescence point of 264 (quick) / 10560 (thorough) generated sessions against a real bumble GATT '
               'server: all 256 opcodes x body shapes on the fixed and on hand-driven enhanced bearers, request sequences '
               'from a grammar of valid and invalid parameter forms over generated databases (every permission byte, values '
-              '0..512 bytes, 16/32/128-bit types, callbacks that sleep, refuse or raise), MTUs 23..517, notifications and '
+              '0..512 bytes, 16/32/128-bit types incl. runs of consecutive attributes of one UUID width for services, '
+              'characteristics and descriptors, callbacks that sleep, refuse or raise), MTUs 23..517, notifications and '
               'concurrent indications around ATT_MTU-3. Sampling of the input space, not proof.')
 LEVEL_NOTE = ('Trusted: vlib/ref_att.py (hand-written ATT layouts + pairing automaton, ~450 lines), vlib/att_peer.py '
               '(raw fixed-channel and K-frame endpoints), the rig taps and virtual-time loop. Replies later than 31 virtual '
